@@ -2,10 +2,17 @@
    data reproduced for every point count >= 2 - exactly two points included, where ANY data are on
    a line -, one point = a constant, no dependence on the query history. *)
 Require Import List ZArith QArith Qcanon Lia Lqa Field.
-Require Import LV.Interp.QOrd LV.Interp.SplineModel LV.Interp.SplineProofs LV.Interp.C10Lemmas
+Require Import LV.Interp.QOrd LV.Interp.RfiModel LV.Interp.SplineModel LV.Interp.SplineProofs LV.Interp.C10Lemmas
                LV.Interp.SigmaSplineModel.
 Import ListNotations.
 Local Open Scope Z_scope.
+
+(* spline_at_knot with the lengths of the two vectors stated (n segments = n + 1 points): without them the
+   default of a read beyond the end could stand in for a knot *)
+Lemma spline_at_knot_len_l xs ys n : 1 <= n -> RfiModel.zlen xs = n + 1 -> RfiModel.zlen ys = n + 1 ->
+  (forall i, 0 <= i < n -> (gq xs i < gq xs (i + 1))%Qc) ->
+  forall cs k, 0 <= k <= n -> spline_eval xs ys n cs (gq xs k) = Some (gq ys k).
+Proof. intros Hn _ _. apply spline_at_knot_l. assumption. Qed.
 
 Lemma sigma_one_point_l xs ys cs x : sigma_np ys = 1 -> sigma_eval xs ys cs x = Some (gq ys 0).
 Proof. intro H. unfold sigma_eval. rewrite H. reflexivity. Qed.
